@@ -200,7 +200,7 @@ _ITER_CONSUMERS = ('sum', 'min', 'max', 'list', 'set', 'sorted', 'any', 'all', '
                    'enumerate', 'zip', 'reversed', 'dict.fromkeys')
 
 
-def iter_canon(n: ast.AST) -> ast.AST:
+def iter_canon(n: ast.AST, consumed_at_once: bool = False) -> ast.AST:
     """one form for an expression that is only *iterated*:  D.keys() -> D  (iterating a mapping visits its keys);
     list(Z) / tuple(Z) -> Z for a Z nothing can change while it is consumed (zip/enumerate/range/... or a
     comprehension);  (x for x in S) -> S"""
@@ -211,7 +211,9 @@ def iter_canon(n: ast.AST) -> ast.AST:
         if isinstance(n, ast.Call) and isinstance(n.func, ast.Name) and n.func.id in ('list', 'tuple') and len(n.args) == 1 \
                 and not n.keywords:
             z = n.args[0]
-            if (isinstance(z, ast.Call) and isinstance(z.func, ast.Name) and z.func.id in _SAFE_ITER_CALLS) or \
+            # consumed_at_once: the iterable is used up inside one expression (a comprehension, sum(), enumerate() ..),
+            # nothing can run in between, so materialising it first makes no difference
+            if consumed_at_once or (isinstance(z, ast.Call) and isinstance(z.func, ast.Name) and z.func.id in _SAFE_ITER_CALLS) or \
                     isinstance(z, (ast.GeneratorExp, ast.ListComp)):
                 n = z
                 continue
@@ -221,6 +223,14 @@ def iter_canon(n: ast.AST) -> ast.AST:
             n = n.generators[0].iter
             continue
         return n
+
+
+def _gen_iter(it):
+    """the iterable of a comprehension clause: consumed inside the expression"""
+    it = iter_canon(it, consumed_at_once=True)
+    if isinstance(it, ast.Call) and isinstance(it.func, ast.Name) and it.func.id in ('enumerate', 'zip', 'reversed') and it.args:
+        it = ast.Call(func=it.func, args=[iter_canon(a, consumed_at_once=True) for a in it.args], keywords=it.keywords)
+    return it
 
 
 def cstr(n: ast.AST) -> str:
@@ -239,8 +249,15 @@ def cstr(n: ast.AST) -> str:
                                      generators=[ast.comprehension(target=ast.Name(id='_fk', ctx=ast.Store()), iter=n.args[0],
                                                                    ifs=[], is_async=0)]))
         cargs = list(n.args)
+        if f == 'dict' and len(n.args) == 1 and not n.keywords and isinstance(n.args[0], ast.Call) \
+                and isinstance(n.args[0].func, ast.Name) and n.args[0].func.id == 'enumerate' and len(n.args[0].args) == 1:
+            # dict(enumerate(S)) is {i: x for i, x in enumerate(S)}
+            i, v = ast.Name(id='_ei', ctx=ast.Load()), ast.Name(id='_ev', ctx=ast.Load())
+            tgt = ast.Tuple(elts=[ast.Name(id='_ei', ctx=ast.Store()), ast.Name(id='_ev', ctx=ast.Store())], ctx=ast.Store())
+            return cstr(ast.DictComp(key=i, value=v, generators=[ast.comprehension(target=tgt, iter=n.args[0], ifs=[], is_async=0)]))
         if f in _ITER_CONSUMERS and cargs:
-            cargs[0] = iter_canon(cargs[0])          # consumed as an iterable
+            once = f not in ('list', 'tuple', 'sorted', 'iter', 'reversed', 'zip', 'enumerate')   # these hand the items on
+            cargs[0] = iter_canon(cargs[0], consumed_at_once=once)          # consumed as an iterable
             if f == 'zip':
                 cargs = [iter_canon(a) for a in cargs]
         args = [term(a) for a in cargs]
@@ -282,6 +299,7 @@ def cstr(n: ast.AST) -> str:
         body = _alpha(n.body, names)
         return 'lambda(%d:%s)' % (len(names), term(body))
     if isinstance(n, (ast.GeneratorExp, ast.ListComp, ast.SetComp, ast.DictComp)) and not getattr(n, '_alpha_done', False):
+        n = _items_canon(n)
         names = []
         for g in n.generators:
             for x in ast.walk(g.target):
@@ -291,7 +309,7 @@ def cstr(n: ast.AST) -> str:
         n2._alpha_done = True
         return cstr(n2)
     if isinstance(n, (ast.GeneratorExp, ast.ListComp, ast.SetComp)):
-        gens = ';'.join('%s in %s%s' % (term(g.target), term(iter_canon(g.iter)),
+        gens = ';'.join('%s in %s%s' % (term(g.target), term(_gen_iter(g.iter)),
                                          ''.join(' if ' + cond_str(c) for c in g.ifs)) for g in n.generators)
         k = {'GeneratorExp': 'gen', 'ListComp': 'list', 'SetComp': 'set'}[type(n).__name__]
         return '%s(%s for %s)' % (k, term(n.elt), gens)
@@ -308,7 +326,7 @@ def cstr(n: ast.AST) -> str:
                         or isinstance(inner, (ast.Name, ast.Attribute)):
                     return iter_canon(inner)
             return it
-        gens = ';'.join('%s in %s' % (term(g.target), term(_src(iter_canon(g.iter)))) for g in n.generators)
+        gens = ';'.join('%s in %s' % (term(g.target), term(_src(_gen_iter(g.iter)))) for g in n.generators)
         return 'dict(%s:%s for %s)' % (term(n.key), term(n.value), gens)
     if isinstance(n, ast.BinOp):
         return '(%s %s %s)' % (term(n.left), type(n.op).__name__, term(n.right))
@@ -318,6 +336,43 @@ def cstr(n: ast.AST) -> str:
         return ast.unparse(n)
     except Exception:  # pragma: no cover
         return '<%s>' % type(n).__name__
+
+
+def _items_canon(n):
+    """`for k, v in D.items()` is `for k in D` with v standing for D[k] (D not changed by a comprehension)"""
+    import copy
+    if not any(isinstance(g.target, ast.Tuple) and len(g.target.elts) == 2 and all(isinstance(e, ast.Name) for e in g.target.elts)
+               and isinstance(g.iter, ast.Call) and isinstance(g.iter.func, ast.Attribute) and g.iter.func.attr == 'items'
+               and not g.iter.args and not g.iter.keywords for g in n.generators):
+        return n
+    n = copy.deepcopy(n)
+    for gi, g in enumerate(n.generators):
+        if isinstance(g.target, ast.Tuple) and len(g.target.elts) == 2 and all(isinstance(e, ast.Name) for e in g.target.elts) \
+                and isinstance(g.iter, ast.Call) and isinstance(g.iter.func, ast.Attribute) and g.iter.func.attr == 'items' \
+                and not g.iter.args and not g.iter.keywords:
+            k, v = g.target.elts[0].id, g.target.elts[1].id
+            if k == v:
+                continue
+            d = g.iter.func.value
+            sub = ast.Subscript(value=d, slice=ast.Name(id=k, ctx=ast.Load()), ctx=ast.Load())
+
+            class R(ast.NodeTransformer):
+                def visit_Name(self, x):
+                    if x.id == v and isinstance(x.ctx, ast.Load):
+                        return copy.deepcopy(sub)
+                    return x
+            g.target = ast.Name(id=k, ctx=ast.Store())
+            g.iter = d
+            g.ifs = [R().visit(c) for c in g.ifs]
+            for g2 in n.generators[gi + 1:]:
+                g2.iter = R().visit(g2.iter)
+                g2.ifs = [R().visit(c) for c in g2.ifs]
+            if isinstance(n, ast.DictComp):
+                n.key = R().visit(n.key)
+                n.value = R().visit(n.value)
+            else:
+                n.elt = R().visit(n.elt)
+    return n
 
 
 def _alpha(node, names):
